@@ -529,3 +529,24 @@ func panicClass(v string) string {
 	}
 	return "custom:" + sb.String()
 }
+
+// Recanon re-canonicalises the objects a call returned (not the canonical text computed at
+// return time): a result that aliases pooled memory changes visibly when the pools are reused or
+// overwritten later (C04's immutability clause).
+func (r *Result) Recanon() string {
+	var sb strings.Builder
+	if r.Exif != nil {
+		sb.WriteString(CanonExif(*r.Exif).String())
+	}
+	if r.XMP != nil {
+		sb.WriteString(CanonAny("XMP", *r.XMP).String())
+	}
+	if r.Prev != nil {
+		fmt.Fprintf(&sb, "Preview=%d:%x\n", len(r.Prev), fnv(r.Prev))
+	}
+	if r.Header != nil {
+		sb.WriteString("Header=" + headerString(*r.Header) + "\n")
+	}
+	fmt.Fprintf(&sb, "Type=%d\n", uint8(r.Type))
+	return sb.String()
+}
